@@ -20,7 +20,9 @@ RULE = (
     "column slicer: ATOM/HETATM/TER records exactly 80 columns with every field in its columns, record grammar "
     "(MODEL n (atoms-of-a-chain TER)+ ENDMDL)* END with a TER after every chain run including the last chain of "
     "every model. Non-trivial: table with a 4-character name, 2-letter element, non-zero charge, quote in a name, "
-    "altloc, icode, >=2 models, >=2 chains or a negative number; distinct = distinct table."
+    "altloc, icode, >=2 models, >=2 chains or a negative number; distinct = distinct table. Also the splitter command line "
+    "(PDB or mmCIF input, output format keep/PDB/mmCIF): one file per model holding exactly that model's atoms on all "
+    "fields, written PDB obeying the layout."
 )
 ASSUMPTIONS = [
     "tables are within PDB field widths (the property's quantifier); serial numbers restart per model as in real files",
@@ -210,6 +212,70 @@ def oracle(case):
     return res
 
 
+def oracle_splitter(case):
+    """splitter.main: one output file per model holding exactly that model's atoms (all 16 fields), in any output format"""
+    import contextlib
+    import io
+    import os
+    import shutil
+    import sys
+
+    import rnapolis.splitter as sp
+    from rnapolis.parser_v2 import parse_cif_atoms, parse_pdb_atoms
+    from rnaverif.runner import WORK_DIR
+
+    atoms = case["atoms"]
+    fmt_in, fmt_out = case["format_in"], case["format_out"]
+    os.makedirs(WORK_DIR, exist_ok=True)
+    base = os.path.join(WORK_DIR, f"c09split_{os.getpid()}")
+    shutil.rmtree(base, ignore_errors=True)
+    os.makedirs(base)
+    src = os.path.join(base, "input." + ("pdb" if fmt_in == "PDB" else "cif"))
+    with open(src, "w") as f:
+        f.write(atomtab.emit_pdb(atoms, always_model=True) if fmt_in == "PDB" else atomtab.emit_cif(atoms, case.get("null", "?")))
+    outdir = os.path.join(base, "out")
+    out = []
+    old = sys.argv
+    buf, err = io.StringIO(), io.StringIO()
+    try:
+        sys.argv = ["splitter", "-o", outdir, "-f", fmt_out, src]
+        try:
+            with contextlib.redirect_stdout(buf), contextlib.redirect_stderr(err):
+                sp.main()
+        except SystemExit as e:
+            if e.code not in (0, None):
+                return [D("C09:splitter:exit", f"splitter exited with {e.code}: {err.getvalue()[-200:]}")]
+        models = []
+        for a in atoms:
+            if a["model"] not in models:
+                models.append(a["model"])
+        eff = fmt_in if fmt_out.lower() == "keep" else ("PDB" if fmt_out.upper() == "PDB" else "mmCIF")
+        for m in models:
+            path = os.path.join(outdir, f"input_model_{m}." + ("pdb" if eff == "PDB" else "cif"))
+            want = [a for a in atoms if a["model"] == m]
+            if not os.path.exists(path):
+                out.append(D("C09:splitter:model-file-missing", f"no output for model {m} ({fmt_in} -> {fmt_out}); stderr: {err.getvalue()[-200:]}"))
+                continue
+            with open(path) as f:
+                text = f.read()
+            got = logical(parse_pdb_atoms(text) if eff == "PDB" else parse_cif_atoms(text))
+            out += diff_tables(f"splitter:{fmt_in}->{eff}", want, got, True)
+            if eff == "PDB":
+                out += check_pdb_layout(f"splitter:{fmt_in}->PDB", text, want)
+        extra = sorted(set(os.listdir(outdir)) - {f"input_model_{m}." + ("pdb" if eff == "PDB" else "cif") for m in models}) if os.path.isdir(outdir) else []
+        if extra:
+            out.append(D("C09:splitter:unexpected-files", f"{extra[:3]}"))
+    finally:
+        sys.argv = old
+        shutil.rmtree(base, ignore_errors=True)
+    seen, res = set(), []
+    for d in out:
+        if d.sig not in seen:
+            seen.add(d.sig)
+            res.append(d)
+    return res
+
+
 def classify(case):
     atoms = case["atoms"]
     labs = []
@@ -244,12 +310,25 @@ def st_cases():
 
 def plan(tier, seed):
     if tier == "quick":
-        return [{"kind": "tables", "examples": 50, "seed": seed * 1000 + k} for k in range(16)]
-    return [{"kind": "tables", "examples": 650, "seed": seed * 1000 + k} for k in range(16)]
+        return [{"kind": "tables", "examples": 50, "seed": seed * 1000 + k} for k in range(14)] + \
+               [{"kind": "splitter", "examples": 25, "seed": seed * 1000 + 100 + k} for k in range(4)]
+    return [{"kind": "tables", "examples": 650, "seed": seed * 1000 + k} for k in range(16)] + \
+           [{"kind": "splitter", "examples": 400, "seed": seed * 1000 + 100 + k} for k in range(8)]
 
 
 def run_shard(spec) -> ShardResult:
     res = ShardResult()
+    if spec["kind"] == "splitter":
+        from hypothesis import strategies as st
+
+        strat = st.fixed_dictionaries({"atoms": atomtab.st_tables(max_residues=3, max_atoms=4), "null": st.sampled_from(["?", "."]),
+                                       "format_in": st.sampled_from(["PDB", "mmCIF"]),
+                                       "format_out": st.sampled_from(["keep", "PDB", "mmCIF", "pdb", "mmcif"])})
+        run_hypothesis(PROP_ID, strat, oracle_splitter, seed=spec["seed"], max_examples=spec["examples"], result=res,
+                       classify=lambda c: (len({a["model"] for a in c["atoms"]}) >= 2, ["splitter", f"{c['format_in']}->{c['format_out'].lower()}"]),
+                       sample_cap=1)
+        res.exhaustive = False
+        return res
     run_hypothesis(PROP_ID, st_cases(), oracle, seed=spec["seed"], max_examples=spec["examples"], result=res,
                    classify=classify, sample_cap=1)
     res.extra["round_trip_paths_per_table"] = 0
@@ -258,4 +337,6 @@ def run_shard(spec) -> ShardResult:
 
 
 def replay(case):
+    if "format_in" in case:
+        return oracle_splitter(case)
     return oracle(case)
